@@ -68,11 +68,16 @@ def inputs(tmp):
         'procfail.m': 'circle pc wire badwire\n',
         'main_imp_procfail.m': 'import "procfail.m"\ncircle a ref r shape pc\n',
         'numfail.m': 'circle nc num 13\n',
+        'lib_syntax.m': 'circle x %%% junk\n',
+        'main_imp_syntax.m': 'import "lib_syntax.m"\ncircle a\n',
+        'main_imp_missing.m': 'import "nofile.m"\ncircle a\n',
+        'user_of_bad.m': 'import "main_imp_syntax.m"\ncircle u\n',
     }
     for nm, t in files.items():
         with open(os.path.join(tmp, nm), 'w') as f:
             f.write(t)
-    for nm in ('main_ok.m', 'main_bad.m', 'main_imp_bad.m', 'cyc_a.m', 'lib.m', 'procfail.m', 'main_imp_procfail.m', 'numfail.m'):
+    for nm in ('main_ok.m', 'main_bad.m', 'main_imp_bad.m', 'cyc_a.m', 'lib.m', 'procfail.m', 'main_imp_procfail.m', 'numfail.m', 'main_imp_syntax.m',
+               'main_imp_missing.m', 'user_of_bad.m'):
         out.append({'kind': 'file', 'path': os.path.join(tmp, nm)})
     return out
 
